@@ -590,6 +590,7 @@ class OnionWorld:
         d = self.net.inflight[self.find(seq)]
         self.net.seq += 1
         c = Datagram(self.net.seq, d.src, d.dst, d.data, d.sender)
+        c.note = d.note
         self.net.wire.append(c)
         self.net.inflight.append(c)
         if seq in self.flipped:
